@@ -23,6 +23,7 @@ import (
 
 	"github.com/cloudwego/dynamicgo/internal/native"
 	"github.com/cloudwego/dynamicgo/internal/native/types"
+	"github.com/cloudwego/dynamicgo/meta"
 )
 
 // Skip skips over teh value for the given type using native C implementation.
@@ -36,10 +37,10 @@ func (p *BinaryProtocol) SkipNative(fieldType Type, maxDepth int) (err error) {
 	}
 	fsm := types.NewTStateMachine()
 	ret := native.TBSkip(fsm, &p.Buf[p.Read], left, uint8(fieldType))
+	types.FreeTStateMachine(fsm)
 	if ret < 0 {
-		return
+		return meta.NewError(meta.ErrRead, "native skip failed", types.ParsingError(-ret))
 	}
 	p.Read += int(ret)
-	types.FreeTStateMachine(fsm)
 	return nil
 }
